@@ -90,7 +90,11 @@ class OptimizationAbstract(ABC, Generic[T]):
         if n_weights != n_objectives:
             raise ValueError(f"Invalid number of weights. Expected {n_weights}, found {n_objectives}")
 
-        cost = np.dot(cost, self._task.objective_weights) if self._task.objective_weights is not None else cost
+        # a single objective may come as a scalar or as a one-element list, with or without its weight
+        if self._task.objective_weights is not None:
+            cost = np.dot(np.atleast_1d(cost), self._task.objective_weights)
+        elif isinstance(cost, list):
+            cost, = cost
         return Agent(position=position, cost=cost, fitness=calculate_fitness(cost, self._task.minmax))
     
     def _generate_agents(self, n_agents: int) -> list[Agent]:
